@@ -160,7 +160,8 @@ def ackOfCallback (env : Env) (cb : Callback) (relayer : Bytes) (fee : UInt64) :
 /-- the three ways a receive can end successfully -/
 inductive RecvBranch (env : Env) (c c1 c' : Chain) (p : Packet) (cb : Callback) (relayer : Bytes) : Prop
   | local (hd : p.dst = c.name) (ackBz : Bytes) (ha : ackOfCallback env cb relayer p.feeOption = some ackBz)
-      (hw : writeAck env { c1 with evm := .recvCallback (receiptKey p) :: c1.evm } p ackBz = .ok c')
+      (c2 : Chain) (hw : writeAck env c1 p ackBz = .ok c2)
+      (he : c' = if cb.committed then { c2 with evm := .recvCallback (receiptKey p) :: c2.evm } else c2)
   | noRoute (hd : p.dst ≠ c.name) (hc : c.clients.has p.dst = false)
       (hw : writeAck env c1 p (env.encodeAck ⟨1, [], errMsgDst, relayer, p.feeOption⟩) = .ok c')
   | relay (hd : p.dst ≠ c.name) (hc : c.clients.has p.dst = true) (he : c' = c1)
@@ -190,9 +191,22 @@ theorem recvPacket_ok {env : Env} {c c' : Chain} {now : UInt64} {packet proof : 
           have hdst' : (env.decodePacket packet).1.dst = c.name := by
             have := spec.name; simp at hdst; rw [hdst, this]
           cases cb with
-          | fail => exact .local hdst' _ rfl hr
+          | fail => exact .local hdst' _ rfl c' hr (by simp [Callback.committed])
           | undecodable => cases hr
-          | ok code r m => exact .local hdst' _ rfl hr
+          | ok code r m =>
+            simp only at hr
+            split at hr
+            · cases hr
+            · rename_i c2 hw
+              split at hr
+              · rename_i hcode
+                injection hr with hr
+                have : (Callback.ok code r m).committed = false := by simpa [Callback.committed] using hcode
+                exact .local hdst' _ rfl c2 hw (by rw [this]; simp [hr])
+              · rename_i hcode
+                injection hr with hr
+                have : (Callback.ok code r m).committed = true := by simpa [Callback.committed] using hcode
+                exact .local hdst' _ rfl c2 hw (by rw [this]; simp [hr])
         · rename_i hdst
           have hdst' : (env.decodePacket packet).1.dst ≠ c.name := by
             have := spec.name; simp at hdst; rw [← this]; exact hdst
@@ -464,7 +478,7 @@ inductive RecvAckEffect (env : Env) (c c' : Chain) (p : Packet) (cb : Callback) 
       (hacks : c'.acks = c.acks.set (ackKey p) (env.sha256 ackBz)) (hw : c'.ackWrites = ackKey p :: c.ackWrites)
       (hcommits : c'.commits = c.commits)
       (hwhich : (p.dst = c.name ∧ ackOfCallback env cb relayer p.feeOption = some ackBz ∧
-                  c'.evm = .recvCallback (receiptKey p) :: c.evm) ∨
+                  c'.evm = if cb.committed then .recvCallback (receiptKey p) :: c.evm else c.evm) ∨
                 (p.dst ≠ c.name ∧ c.clients.has p.dst = false ∧
                   ackBz = env.encodeAck ⟨1, [], errMsgDst, relayer, p.feeOption⟩ ∧ c'.evm = c.evm))
 
@@ -496,15 +510,24 @@ theorem handle_recv_effect {env : Env} {c c' : Chain} {now : UInt64} {packet pro
   obtain ⟨c1, relayer, spec, _, hrel, br⟩ := recvPacket_ok hr
   rw [relayerOnOtherChain_congr spec.relayers] at hrel
   cases br with
-  | «local» hd ackBz ha hw =>
-    obtain ⟨hne, hfr, _, he⟩ := writeAck_ok hw
-    subst he
+  | «local» hd ackBz ha c2 hw he =>
+    obtain ⟨hne, hfr, _, he2⟩ := writeAck_ok hw
+    subst he2
     have hcm : c1.commits = c.commits := by
       rw [spec.commits]; simp [hd]
-    refine ⟨hb, spec.valid, spec.fresh, spec.verified, spec.receipts, spec.name, spec.clients, spec.relayers,
-      spec.nextSeq, relayer, hrel, ?_⟩
-    refine .acked ackBz hne (by simpa [spec.acks] using hfr) (by simp [spec.acks]) (by simp [spec.ackWrites]) hcm
-      (Or.inl ⟨hd, ha, by simp [spec.evm]⟩)
+    refine ⟨hb, ?_, ?_, spec.verified, ?_, ?_, ?_, ?_, ?_, relayer, hrel, ?_⟩
+    · exact spec.valid
+    · exact spec.fresh
+    · rw [he]; split <;> exact spec.receipts
+    · rw [he]; split <;> exact spec.name
+    · rw [he]; split <;> exact spec.clients
+    · rw [he]; split <;> exact spec.relayers
+    · rw [he]; split <;> exact spec.nextSeq
+    · refine .acked ackBz hne (by simpa [spec.acks] using hfr) ?_ ?_ ?_ (Or.inl ⟨hd, ha, ?_⟩)
+      · rw [he]; split <;> simp [spec.acks]
+      · rw [he]; split <;> simp [spec.ackWrites]
+      · rw [he]; split <;> exact hcm
+      · rw [he]; split <;> simp [spec.evm]
   | noRoute hd hc hw =>
     obtain ⟨hne, hfr, _, he⟩ := writeAck_ok hw
     subst he
